@@ -407,3 +407,57 @@ func resolveCaptured(fn *ssa.Function, i int) (*ssa.Alloc, *ssa.Function) {
 	}
 	return nil, nil
 }
+
+// mayReach reports whether `to` is reachable from `from` in the static call graph of the module, following direct
+// calls, closures created in a function, and dispatch on the module's closed interfaces (calls through other
+// function values are not followed).
+func (vc *VC) mayReach(from, to *ssa.Function) bool {
+	if from == nil || to == nil {
+		return false
+	}
+	p := vc.p
+	if p.reachCache == nil {
+		p.reachCache = map[*ssa.Function]map[*ssa.Function]bool{}
+	}
+	set, ok := p.reachCache[from]
+	if !ok {
+		set = map[*ssa.Function]bool{}
+		var visit func(f *ssa.Function)
+		visit = func(f *ssa.Function) {
+			for _, b := range f.Blocks {
+				for _, in := range b.Instrs {
+					var callees []*ssa.Function
+					switch x := in.(type) {
+					case ssa.CallInstruction:
+						c := x.Common()
+						if c.IsInvoke() {
+							if p.closedInterface(c.Value.Type()) {
+								for _, ct := range p.implementers(c.Value.Type()) {
+									if m := p.methodOf(ct, c.Method); m != nil {
+										callees = append(callees, m)
+									}
+								}
+							}
+						} else if g := c.StaticCallee(); g != nil {
+							callees = append(callees, g)
+						}
+					case *ssa.MakeClosure:
+						if g, ok := x.Fn.(*ssa.Function); ok {
+							callees = append(callees, g)
+						}
+					}
+					for _, g := range callees {
+						if !p.inModule(g) || set[g] {
+							continue
+						}
+						set[g] = true
+						visit(g)
+					}
+				}
+			}
+		}
+		visit(from)
+		p.reachCache[from] = set
+	}
+	return set[to] || from == to
+}
